@@ -739,6 +739,21 @@ impl CodegenContext {
                                 None => opts.target_address = opts.initial_pc,
                             }
 
+                            // Every pass starts with empty segments. One that holds bytes already was used further up (it is
+                            // known from the previous pass): the definition would throw those bytes away without a word.
+                            if self
+                                .segments
+                                .get(&name)
+                                .map_or(false, |segment| !segment.range().is_empty())
+                            {
+                                return Err(Diagnostic::error()
+                                    .with_message(format!(
+                                        "segment '{}' is used before it is defined",
+                                        name
+                                    ))
+                                    .with_labels(vec![id.span.to_label()])
+                                    .into());
+                            }
                             self.segments.insert(name.clone(), Segment::new(opts));
                             if self.current_segment.is_none() {
                                 self.current_segment = Some(name);
